@@ -97,12 +97,19 @@ func genC11(r *Rand, tier, profile string) *Case {
 		}
 		ts = append(ts, tstep{t, st})
 		pid := int64(1)
-		if r.Bool(0.6) {
+		// a session that lives for less than a gossip interval: its creation and its removal are
+		// queued together and may reach another node in either order
+		brief := r.Bool(0.25)
+		if !brief && r.Bool(0.6) {
 			t += int64(r.Range(5, 300))
 			ts = append(ts, tstep{t, Step{K: "sub", C: i, L: []string{fmt.Sprintf("d/%d/#", i), "d/all"}, QL: []int{r.Intn(2), 0}, I: pid}})
 			pid++
 		}
-		for n := r.Intn(4); n > 0; n-- {
+		nact := r.Intn(4)
+		if brief {
+			nact = 0
+		}
+		for n := nact; n > 0; n-- {
 			f := r.PickInt([]int{50, 90})
 			t += k * 1000 * int64(f) / 100
 			switch r.Intn(4) {
@@ -120,7 +127,12 @@ func genC11(r *Rand, tier, profile string) *Case {
 		if cause == "stopnode" && (node == 0 || stopped) {
 			cause = "cut"
 		}
-		t += int64(r.Range(10, int(k*900)))
+		if brief {
+			cause = r.Pick([]string{"disconnect", "cut", "close"})
+			t += int64(r.Range(3, 150))
+		} else {
+			t += int64(r.Range(10, int(k*900)))
+		}
 		switch cause {
 		case "disconnect":
 			ts = append(ts, tstep{t, Step{K: "pkt", C: i, S: "disconnect"}})
